@@ -213,10 +213,6 @@ def case_clauses(case, ans):
     if case["call"] == "getitem":
         if len(case["ids"]) == 2 and all("a" in j for j in case["ids"]):
             cl.append("getitem-array-pair-outer")
-        if len(case["ids"]) == 2 and all("l" in j for j in case["ids"]):
-            l0, l1 = case["ids"][0]["l"], case["ids"][1]["l"]
-            if len(l0) != len(l1) or not l0:      # Lean clause `EqualLenLists` (same positive length) violated
-                cl.append("getitem-list-zip")
         dims = [ans.get("rows", 0), ans.get("cols", 0)]
         for pos, j in enumerate(case["ids"]):
             if "a" in j and dims[pos] > 0:
